@@ -10,7 +10,7 @@
    Two clocks: now = time.Now() on the nodes, bnow = the shared backend's expiry clock. *)
 From Coq Require Import List NArith ZArith Bool.
 Import ListNotations.
-From TX Require Import Base.Val Model.RoutingConc Model.RoutingBridge Proofs.Routing Proofs.RoutingRefine Proofs.RoutingConc Proofs.RoutingBridge Proofs.SideC09 Gen.C09.
+From TX Require Import Base.Val Model.RoutingConc Model.RoutingBridge Model.RoutingForward Proofs.Routing Proofs.RoutingRefine Proofs.RoutingConc Proofs.RoutingBridge Proofs.RoutingForward Proofs.SideC09 Gen.C09.
 Open Scope N_scope.
 
 (* (1) lookup_exact.  After RegisterWaitingTunnel(r) on node n1 at time T, along every history that does not
@@ -268,6 +268,106 @@ Theorem C09_refresh_example :
   /\ snd (ex_step c (ex_final c s1 [OTick 86400000000001 86400000000001]) (OGetAddr 1 id)) = RAddrNotFound.
 Proof. exact ex_refresh. Qed.
 Print Assumptions C09_refresh_example.
+
+(* (3c) the last hop: where a forward is dialled.  forward_now = what forwardToSourceNode + CreateDedicatedConnection do when
+   a target connection for the tunnel arrives: look the tunnel up, read the source node's address from the routing table
+   AT THAT MOMENT, dial it.  Node n0 registers address a for node id (whatever id's address was before, whatever
+   lookups / address reads / forwards any node made before - they are ordinary operations of the histories); a tunnel
+   whose SourceNodeID is id is registered later; the address is kept alive and the tunnel not set again.  Then the
+   target connection arriving on ANY node is forwarded to (id, a): the address registered now, never an earlier one. *)
+Theorem C09_forward_dials_current_address :
+  forall gstr enc dec decm of_addr to_addr keep c s n0 id a h1 n1 r h2 n2,
+  (forall x, to_addr (of_addr x) = x) ->
+  keys_disjoint c -> c_route c (wait_key c (w_tunnel r)) = true -> c_route c (addr_key c id) = true ->
+  c_ttl c <> 0 -> c_addr_ttl c <> 0 -> w_tunnel r <> [] -> a <> [] -> w_node r = id ->
+  let sa := fst (step gstr enc dec decm of_addr to_addr keep c s (ORegAddr n0 id a)) in
+  let s1 := final gstr enc dec decm of_addr to_addr keep c sa h1 in
+  let r' := stamp r (now gstr s1) (now gstr s1 + c_ttl c) in
+  dec (enc r') = Some r' ->
+  kept_alive c (cell_of c n0 (addr_key c id)) a (c_addr_ttl c) (h1 ++ ORegister n1 r :: h2) ->
+  Forall (fun o => ~ sets_tunnel (w_tunnel r) o) h2 ->
+  let s2 := final gstr enc dec decm of_addr to_addr keep c
+                  (fst (step gstr enc dec decm of_addr to_addr keep c s1 (ORegister n1 r))) h2 in
+  now gstr s2 <= now gstr s1 + c_ttl c -> bnow gstr s2 <= bnow gstr s1 + c_ttl c ->
+  forward_now gstr enc dec decm of_addr to_addr keep c s2 n2 (w_tunnel r) = FDial id a.
+Proof. exact forward_dials_current_address. Qed.
+Print Assumptions C09_forward_dials_current_address.
+
+(* the variant that remembers nodeID -> address on the forwarding node and asks the routing table only on a miss dials the
+   EARLIER address after the node re-registered (same history, memo off: address 2; memo on: address 1, although the
+   routing table answers address 2 at that moment) *)
+Theorem C09_memo_forward_refuted :
+  let c := cfg_hybrid true 30000000000 in
+  snd (ex_frun false c (init ex_gstr, ex_memo0) ex_forward_history)
+  = [None; None; Some (FDial ex_nodeid ex_addr1); None; None; None; None; Some (FDial ex_nodeid ex_addr2)]
+  /\ snd (ex_frun true c (init ex_gstr, ex_memo0) ex_forward_history)
+  = [None; None; Some (FDial ex_nodeid ex_addr1); None; None; None; None; Some (FDial ex_nodeid ex_addr1)]
+  /\ ex_forward_now c (fst (fst (ex_frun true c (init ex_gstr, ex_memo0) ex_forward_history))) 1 (w_tunnel ex_rec2)
+     = FDial ex_nodeid ex_addr2.
+Proof. exact memo_forward_refuted. Qed.
+Print Assumptions C09_memo_forward_refuted.
+
+(* (5) single-call failures of the shared tier (Redis down for one command), at EVERY storage call position.
+   A failed call is reported to the caller and writes nothing anywhere (only RemoveWaitingTunnel swallows its failed Delete): *)
+Theorem C09_fault_reported_nothing_diverted :
+  forall gstr enc dec decm of_addr to_addr keep c s o, hits_shared c o = true ->
+  qstep gstr enc dec decm of_addr to_addr keep false c s (QFault o)
+  = (s, match o with ORemove _ _ => QR RUnit | _ => QStorageErr end).
+Proof. exact fault_reported_nothing_diverted. Qed.
+Print Assumptions C09_fault_reported_nothing_diverted.
+
+(* "registered => routable from ANY node, or the registration reported an error" - faults at any later positions *)
+Theorem C09_registered_or_reported :
+  forall gstr enc dec decm of_addr to_addr keep c s n1 r x h n2,
+  keys_disjoint c -> c_route c (wait_key c (w_tunnel r)) = true -> c_ttl c <> 0 -> w_tunnel r <> [] ->
+  let r' := stamp r (now gstr s) (now gstr s + c_ttl c) in
+  dec (enc r') = Some r' ->
+  x = QOk (ORegister n1 r) \/ x = QFault (ORegister n1 r) ->
+  Forall (q_no_set (w_tunnel r)) h ->
+  qstep gstr enc dec decm of_addr to_addr keep false c s x = (s, QStorageErr)
+  \/ (snd (qstep gstr enc dec decm of_addr to_addr keep false c s x) = QR (RReg r') /\
+      let s2 := qfinal gstr enc dec decm of_addr to_addr keep false c
+                       (fst (qstep gstr enc dec decm of_addr to_addr keep false c s x)) h in
+      (now gstr s2 <= now gstr s + c_ttl c -> bnow gstr s2 <= bnow gstr s + c_ttl c ->
+       lookup gstr enc dec decm of_addr to_addr keep c s2 n2 (w_tunnel r) = ROk r')).
+Proof. exact registered_or_reported. Qed.
+Print Assumptions C09_registered_or_reported.
+
+(* "ended => gone everywhere" - after a Remove that took effect, faults at any later positions, no registration that succeeds *)
+Theorem C09_gone_after_end_despite_faults :
+  forall gstr enc dec decm of_addr to_addr keep c s n1 t h n2,
+  keys_disjoint c -> c_route c (wait_key c t) = true -> t <> [] ->
+  Forall (q_no_write t) h ->
+  lookup gstr enc dec decm of_addr to_addr keep c
+         (qfinal gstr enc dec decm of_addr to_addr keep false c
+                 (fst (step gstr enc dec decm of_addr to_addr keep c s (ORemove n1 t))) h) n2 t = RNotFound.
+Proof. exact gone_after_end_despite_faults. Qed.
+Print Assumptions C09_gone_after_end_despite_faults.
+
+(* the "degraded mode" variant (failed shared Set diverted to the node-local cache and reported as success; shared reads
+   fall back to the local cache; Delete only touches the shared tier) breaks both: fault during Register on node 0 ->
+   success reported but node 1 cannot resolve; tunnel ends -> node 0 still resolves the ended tunnel *)
+Theorem C09_local_fallback_refuted :
+  let c := cfg_hybrid true 30000000000 in
+  snd (ex_qrun false c (init ex_gstr) ex_fault_history)
+  = [QStorageErr; QR RNotFound; QR RNotFound; QR RUnit; QR RNotFound; QR RNotFound]
+  /\ snd (ex_qrun true c (init ex_gstr) ex_fault_history)
+  = [QR (RReg (stamp ex_rec 0 30000000000)); QR RNotFound; QR (ROk (stamp ex_rec 0 30000000000)); QR RUnit;
+     QR (ROk (stamp ex_rec 0 30000000000)); QR RNotFound].
+Proof. exact local_fallback_refuted. Qed.
+Print Assumptions C09_local_fallback_refuted.
+
+(* the one position the tree as found does not handle (known finding remove-storage-fault-swallowed): the shared tier
+   fails during RemoveWaitingTunnel, the failed Delete is swallowed, the ended tunnel resolves until ExpiresAt - exactly *)
+Theorem C09_faulted_remove_refuted :
+  let c := cfg_hybrid true 30000000000 in
+  snd (ex_qrun false c (init ex_gstr)
+         [QOk (ORegister 0 ex_rec); QFault (ORemove 0 (w_tunnel ex_rec)); QOk (OLookup 1 (w_tunnel ex_rec));
+          QOk (OTick 30000000000 0); QOk (OLookup 1 (w_tunnel ex_rec)); QOk (OTick 1 0); QOk (OLookup 1 (w_tunnel ex_rec))])
+  = [QR (RReg (stamp ex_rec 0 30000000000)); QR RUnit; QR (ROk (stamp ex_rec 0 30000000000)); QR RUnit;
+     QR (ROk (stamp ex_rec 0 30000000000)); QR RUnit; QR RExpired].
+Proof. exact faulted_remove_refuted. Qed.
+Print Assumptions C09_faulted_remove_refuted.
 
 (* (4) refinement: from the empty store, for every history whose registered records satisfy the codec and in which
    the backend clock never runs ahead of the node clock (db <= dn in every tick: keys are not expired early), the
